@@ -6,5 +6,6 @@ export GOFLAGS=-mod=mod GOPROXY=off GOSUMDB=off GOTOOLCHAIN=local
 mkdir -p .build evidence replays
 fl="plain"
 [ -d tools/rewrite ] && fl="$fl vs"
+fl="$fl race"
 ./check build $fl || exit 1
 echo "setup ok"
